@@ -159,6 +159,7 @@ type Gen struct {
 	nq        int
 	nqid      int
 	touched   map[string]bool
+	callOrd   map[string]map[ssa.Instruction]int
 }
 
 func (g *Gen) fatalf(f string, a ...interface{}) {
